@@ -735,6 +735,31 @@ class Interp:
             else:
                 q = z3.If(zb > 0, za / zb, (-za) / (-zb))
             r = alg.z3atom(q if isinstance(op, ast.FloorDiv) else za - zb * q)
+        elif isinstance(op, (ast.BitXor, ast.BitAnd, ast.BitOr)):
+            za, zb = self.P.z(a), self.P.z(b)
+            if not (z3.is_int(za) and z3.is_int(zb)):
+                raise Unsupported("bitwise operator on non-integers")
+            if a.is_const() and b.is_const():
+                return _py_binop(op, int(a.const_value()), int(b.const_value()))
+            # exact for operands known to lie in [0, 2^64) (hash digests): the 64-bit vectors of the two integers are combined bit by bit
+            lim = 2 ** 64
+            if self.P.feasible(z3.Not(z3.And(za >= 0, za < lim, zb >= 0, zb < lim))):
+                raise Unsupported("bitwise operator on integers not known to lie in [0, 2^64)")
+            if isinstance(op, ast.BitXor):
+                # xor of two 64-bit integers as a fresh integer constrained by the group laws the proofs use (an over-approximation of the bit-level
+                # definition, hence sound for proving; z3 answers `unknown` on int2bv terms): range, x ^ y = 0 <=> x = y, commutativity and cancellation
+                # against every earlier xor of the path (x ^ y = x ^ z <=> y = z)
+                xs = self.P.ghost.setdefault("xor_terms", [])
+                r = alg.sym("xor#%d" % len(xs), "Int")
+                zr = self.P.z(r)
+                self.P.assume(z3.And(zr >= 0, zr < lim, (zr == 0) == (za == zb)), "x ^ y on 64-bit integers: in range, zero iff x = y")
+                for (pa, pb, pr) in xs:
+                    self.P.assume(z3.And(z3.Implies(pa == za, (pr == zr) == (pb == zb)), z3.Implies(pa == zb, (pr == zr) == (pb == za)),
+                                         z3.Implies(pb == za, (pr == zr) == (pa == zb)), z3.Implies(pb == zb, (pr == zr) == (pa == za))), "xor: commutative, cancellative")
+                xs.append((za, zb, zr))
+            else:
+                va, vb = z3.Int2BV(za, 64), z3.Int2BV(zb, 64)
+                r = alg.z3atom(z3.BV2Int(va & vb if isinstance(op, ast.BitAnd) else va | vb, False))
         else:
             raise Unsupported("binary operator %s" % type(op).__name__)
         return _num_or_int(r)
